@@ -150,6 +150,8 @@ fn c15_lines_iter_body<const N: usize>() {
     kani::cover!(p.n == N + 1, "every byte a terminator");
     forget(sv);
 }
+sv_proof!(c15_lines_iter_n1, 5, c15_lines_iter_body::<1>());
+sv_proof!(c15_lines_iter_n2, 6, c15_lines_iter_body::<2>());
 sv_proof!(c15_lines_iter_n3, 7, c15_lines_iter_body::<3>());
 sv_proof!(c15_lines_iter_n4, 8, c15_lines_iter_body::<4>());
 
